@@ -316,6 +316,9 @@ func calleeOf(t *ana.Term) *ssa.Function {
 	}
 	switch x := t.V.(type) {
 	case *ssa.Call:
+		if x == nil {
+			return nil // the call of a go / defer statement has no value
+		}
 		return ana.StaticRepoCallee(&x.Call)
 	case *ssa.Extract:
 		if c, ok := x.Tuple.(*ssa.Call); ok {
